@@ -17,9 +17,10 @@
 (*   4. otherwise the unmatched blocks are closed and the text is added to *)
 (*      the innermost block (or opens a paragraph).                        *)
 (* Covered: paragraphs, ATX and setext headings, thematic breaks, fenced   *)
-(* and indented code, block quotes, bullet and ordered lists (tight and    *)
-(* loose), blank lines, laziness.  Not covered (lines of the alphabet      *)
-(* never use them): tabs, HTML blocks, link reference definitions, tables. *)
+(* and indented code, HTML blocks (all seven start conditions), block      *)
+(* quotes, bullet and ordered lists (tight and loose), blank lines,        *)
+(* laziness.  Not covered (lines of the alphabet never use them): tabs,    *)
+(* link reference definitions, tables.                                     *)
 (*                                                                         *)
 (* The state after the last line is the parse.  TLC explores EVERY line    *)
 (* sequence up to MaxLines over the alphabet; the harness feeds each to    *)
@@ -69,6 +70,15 @@ Esc(s) == IF s = "" THEN ""
           ELSE LET c == Ch(s, 1) IN
                (CASE c = "&" -> "&amp;" [] c = "<" -> "&lt;" [] c = ">" -> "&gt;" [] c = "\"" -> "&quot;" [] OTHER -> c) \o Esc(Drop(s, 1))
 
+UpperChars == "ABCDEFGHIJKLMNOPQRSTUVWXYZ"
+LowerChars == "abcdefghijklmnopqrstuvwxyz"
+IsLetter(c) == c # "" /\ \E i \in 1..26 : Ch(UpperChars, i) = c \/ Ch(LowerChars, i) = c
+LowerCh(c) == IF \E i \in 1..26 : Ch(UpperChars, i) = c THEN Ch(LowerChars, CHOOSE i \in 1..26 : Ch(UpperChars, i) = c) ELSE c
+RECURSIVE Lower(_)
+Lower(s) == IF s = "" THEN "" ELSE LowerCh(Ch(s, 1)) \o Lower(Drop(s, 1))
+StartsWith(s, p) == Take(s, Len(p)) = p
+HasSub(s, p) == \E i \in 1..(Len(s) - Len(p) + 1) : SubSeq(s, i, i + Len(p) - 1) = p
+
 ---------------------------------------------------------------------------
 (* recognisers for the remainder r of a line (behind the matched containers) *)
 NotIndented(r) == LeadSp(r) <= 3
@@ -90,6 +100,66 @@ IsFenceOpen(r) == LET t == LStrip(r) c == Ch(t, 1) n == Run(t, c) IN
                   NotIndented(r) /\ c \in {"`", "~"} /\ n >= 3 /\ (c = "`" => Count(Drop(t, n), "`") = 0)
 FenceOf(r) == LET t == LStrip(r) c == Ch(t, 1) n == Run(t, c) IN [ch |-> c, n |-> n, off |-> LeadSp(r), info |-> Trim(Drop(t, n))]
 IsFenceClose(r, f) == LET t == LStrip(r) n == Run(t, f.ch) IN NotIndented(r) /\ n >= f.n /\ IsBlank(Drop(t, n))
+
+(* HTML blocks (section 4.6): start conditions 1-7; 0 = none.  Tabs do not occur in the alphabets. *)
+LiteralTags == {"pre", "script", "style", "textarea"}
+BlockTags == {"address", "article", "aside", "base", "basefont", "blockquote", "body", "caption", "center", "col", "colgroup", "dd", "details",
+              "dialog", "dir", "div", "dl", "dt", "fieldset", "figcaption", "figure", "footer", "form", "frame", "frameset", "h1", "h2", "h3",
+              "h4", "h5", "h6", "head", "header", "hr", "html", "iframe", "legend", "li", "link", "main", "menu", "menuitem", "nav", "noframes",
+              "ol", "optgroup", "option", "p", "param", "section", "source", "summary", "table", "tbody", "td", "tfoot", "th", "thead", "title",
+              "tr", "track", "ul"}
+IsNameChar(c) == IsLetter(c) \/ c \in DigitChars \/ c = "-"
+RECURSIVE NameRun(_)
+NameRun(s) == IF IsNameChar(Ch(s, 1)) THEN 1 + NameRun(Drop(s, 1)) ELSE 0
+TagName(s) == IF IsLetter(Ch(s, 1)) THEN Take(s, NameRun(s)) ELSE ""             \* the tag name that starts s, "" if none
+(* attributes of the forms  name  and  name="value"  (value without a double quote), each after at least one space *)
+RECURSIVE AfterAttrs(_)
+AfterAttrs(s) ==
+    LET sp == LeadSp(s) t == Drop(s, sp) nm == TagName(t) IN
+    IF sp = 0 \/ nm = "" THEN s
+    ELSE LET u == Drop(t, Len(nm)) IN
+         IF StartsWith(u, "=\"") /\ HasSub(Drop(u, 2), "\"")
+         THEN LET v == Drop(u, 2) k == CHOOSE i \in 1..Len(v) : Ch(v, i) = "\"" /\ \A j \in 1..(i - 1) : Ch(v, j) # "\"" IN AfterAttrs(Drop(v, k))
+         ELSE AfterAttrs(u)
+(* length of the open or closing tag that starts s (0 if none) *)
+TagLen(s) ==
+    IF StartsWith(s, "</") THEN
+        LET nm == TagName(Drop(s, 2)) k == 2 + Len(nm) + LeadSp(Drop(s, 2 + Len(nm))) IN
+        IF nm # "" /\ Ch(s, k + 1) = ">" THEN k + 1 ELSE 0
+    ELSE IF StartsWith(s, "<") THEN
+        LET nm == TagName(Drop(s, 1))
+            aft == AfterAttrs(Drop(s, 1 + Len(nm)))
+            k == Len(s) - Len(aft) + LeadSp(aft) IN
+        IF nm = "" THEN 0 ELSE IF Ch(s, k + 1) = ">" THEN k + 1 ELSE IF Ch(s, k + 1) = "/" /\ Ch(s, k + 2) = ">" THEN k + 2 ELSE 0
+    ELSE 0
+IsCompleteTag(t) == TagLen(t) > 0 /\ IsBlank(Drop(t, TagLen(t)))        \* an open tag or a closing tag, followed by spaces only
+(* paragraph text as HTML: complete tags are raw inline HTML, everything else is escaped (the alphabets hold no other inline syntax) *)
+RECURSIVE InlineHtml(_)
+InlineHtml(s) == IF s = "" THEN ""
+                 ELSE IF Ch(s, 1) = "<" /\ TagLen(s) > 0 THEN Take(s, TagLen(s)) \o InlineHtml(Drop(s, TagLen(s)))
+                 ELSE Esc(Ch(s, 1)) \o InlineHtml(Drop(s, 1))
+HtmlType(r) ==
+    LET t == LStrip(r) low == Lower(t)
+        nm1 == TagName(Drop(low, 1))
+        nm6 == IF StartsWith(low, "</") THEN TagName(Drop(low, 2)) ELSE nm1
+        after6 == Drop(low, (IF StartsWith(low, "</") THEN 2 ELSE 1) + Len(nm6)) IN
+    IF ~NotIndented(r) \/ Ch(t, 1) # "<" THEN 0
+    ELSE IF StartsWith(low, "<") /\ nm1 \in LiteralTags /\ Ch(low, 2 + Len(nm1)) \in {"", " ", ">"} THEN 1
+    ELSE IF StartsWith(t, "<!--") THEN 2
+    ELSE IF StartsWith(t, "<?") THEN 3
+    ELSE IF StartsWith(t, "<![CDATA[") THEN 5
+    ELSE IF StartsWith(t, "<!") /\ IsLetter(Ch(t, 3)) THEN 4
+    ELSE IF nm6 \in BlockTags /\ (after6 = "" \/ Ch(after6, 1) \in {" ", ">"} \/ StartsWith(after6, "/>")) THEN 6
+    ELSE IF IsCompleteTag(t) /\ nm6 \notin LiteralTags THEN 7
+    ELSE 0
+HtmlEnds(ty, line) ==
+    LET low == Lower(line) IN
+    CASE ty = 1 -> \E nm \in LiteralTags : HasSub(low, "</" \o nm \o ">")
+      [] ty = 2 -> HasSub(line, "-->")
+      [] ty = 3 -> HasSub(line, "?>")
+      [] ty = 4 -> HasSub(line, ">")
+      [] ty = 5 -> HasSub(line, "]]>")
+      [] OTHER  -> FALSE
 
 IsSetextUnderline(r) == LET t == Trim(r) c == Ch(t, 1) IN NotIndented(r) /\ t # "" /\ c \in {"=", "-"} /\ OnlyOf(t, {c})
 SetextLevel(r) == IF Ch(Trim(r), 1) = "=" THEN 1 ELSE 2
@@ -193,6 +263,12 @@ Starts(s, n, r, pm, L, started) ==
         LET s1 == PopList(closed) id == NewId(s1) f == FenceOf(r) IN
         [AddNode(s1, Node("CodeFence", TopNode(s1), L, 0, << >>, [mtype |-> f.info, ordered |-> FALSE, start |-> 0])) EXCEPT
             !.tip = [k |-> "fence", node |-> id, f |-> f]]
+    ELSE IF HtmlType(r) \in 1..6 \/ (HtmlType(r) = 7 /\ ~pm /\ ~(~started /\ n < Len(s.open) /\ s.tip.k = "para")) THEN
+        (* condition 7 cannot interrupt a paragraph, not even as a line that would otherwise be a lazy continuation line *)
+        LET s1 == PopList(closed) id == NewId(s1) ty == HtmlType(r) IN
+        [AddNode(s1, Node("HtmlBlock", TopNode(s1), L, 0, <<r>>, NoX)) EXCEPT
+            !.tip = IF HtmlEnds(ty, r) THEN NoTip ELSE [k |-> "html", node |-> id, f |-> [ch |-> "", n |-> ty, off |-> 0, info |-> ""]],
+            !.tags = s1.tags \cup (IF ~started /\ n < Len(s.open) /\ s.tip.k # "para" /\ ty = 7 THEN {"lazy-after-nonpara"} ELSE {})]
     ELSE IF pm /\ IsSetextUnderline(r) THEN
         [s EXCEPT !.nodes[s.tip.node].t = "SetextHeading", !.nodes[s.tip.node].lv = SetextLevel(r), !.nodes[s.tip.node].last = L, !.tip = NoTip,
                   !.tags = s.tags \cup (IF \E k \in DOMAIN s.open : s.open[k].kind = "quote" THEN {"setext-in-quote"} ELSE {})]
@@ -238,6 +314,10 @@ Line(s0, ln, L) ==
           IF all /\ s.tip.k = "fence" THEN
               IF IsFenceClose(r, s.tip.f) THEN [s EXCEPT !.nodes[s.tip.node].last = L, !.tip = NoTip]
               ELSE AddLineTo(s, s.tip.node, Drop(r, IF LeadSp(r) < s.tip.f.off THEN LeadSp(r) ELSE s.tip.f.off), L)
+          ELSE IF all /\ s.tip.k = "html" /\ ~(IsBlank(r) /\ s.tip.f.n >= 6) THEN
+              (* the line belongs to the HTML block as it stands; conditions 1-5 end with the line that holds the end marker *)
+              LET s1 == IF IsBlank(r) THEN [s EXCEPT !.nodes[s.tip.node].text = Append(s.nodes[s.tip.node].text, r)] ELSE AddLineTo(s, s.tip.node, r, L) IN
+              IF HtmlEnds(s.tip.f.n, r) THEN [s1 EXCEPT !.tip = NoTip] ELSE s1
           ELSE IF all /\ s.tip.k = "icode" /\ (LeadSp(r) >= 4 \/ IsBlank(r)) THEN
               IF IsBlank(r) THEN [s EXCEPT !.nodes[s.tip.node].text = Append(s.nodes[s.tip.node].text, Drop(r, 4))]      \* (extent unchanged)
               ELSE AddLineTo(s, s.tip.node, Drop(r, 4), L)
@@ -284,13 +364,14 @@ HtmlOf(s, n, tight) ==
     LET nd == s.nodes[n]
         ks == Kids(s, n)
         inner(t) == Join([k \in DOMAIN ks |-> HtmlOf(s, ks[k], t)], "\n")
-        txt == Esc(RStrip(Join(nd.text, "\n"))) IN
+        txt == InlineHtml(RStrip(Join(nd.text, "\n"))) IN
     CASE nd.t = "Document"      -> inner(FALSE)
       [] nd.t = "Paragraph"     -> IF tight THEN txt ELSE "<p>" \o txt \o "</p>"
       [] nd.t \in {"Heading", "SetextHeading"} -> "<h" \o NatStr(nd.lv) \o ">" \o txt \o "</h" \o NatStr(nd.lv) \o ">"
       [] nd.t = "ThematicBreak" -> "<hr />"
       [] nd.t = "CodeFence"     -> CodeHtml(nd.x.mtype, nd.text)
       [] nd.t = "BlockCode"     -> CodeHtml("", StripTrailingBlank(nd.text))
+      [] nd.t = "HtmlBlock"     -> Join(StripTrailingBlank(nd.text), "\n")
       [] nd.t = "Quote"         -> "<blockquote>\n" \o inner(FALSE) \o "\n</blockquote>"
       [] nd.t = "List"          -> LET tag == IF nd.x.ordered THEN "ol" ELSE "ul"
                                        sa == IF nd.x.ordered /\ nd.x.start # 1 THEN " start=\"" \o NatStr(nd.x.start) \o "\"" ELSE "" IN
@@ -307,7 +388,7 @@ LinesOf(s) == LET o == Pre(s, 1) IN [i \in DOMAIN o |-> [t |-> s.nodes[o[i]].t, 
 (* the tree without line numbers: what C04 and C05 compare *)
 RECURSIVE Shape(_, _)
 Shape(s, n) == LET nd == s.nodes[n] ks == Kids(s, n) IN
-               [t |-> nd.t, lv |-> nd.lv, text |-> IF nd.t = "BlockCode" THEN StripTrailingBlank(nd.text) ELSE nd.text, x |-> nd.x,
+               [t |-> nd.t, lv |-> nd.lv, text |-> IF nd.t \in {"BlockCode", "HtmlBlock"} THEN StripTrailingBlank(nd.text) ELSE nd.text, x |-> nd.x,
                 loose |-> IF nd.t = "List" THEN Loose(s, n) ELSE FALSE, c |-> [k \in DOMAIN ks |-> Shape(s, ks[k])]]
 
 ---------------------------------------------------------------------------
@@ -347,6 +428,7 @@ ListLaw ==
 
 (* C05: if the document ends in a closed block, a blank line and more text parse independently *)
 EndsClosed(s) == LET ks == Kids(s, 1) IN ks # << >> /\ s.nodes[ks[Len(ks)]].t \in {"Paragraph", "Heading", "SetextHeading", "ThematicBreak", "Quote"}
+                 /\ s.tip.k \notin {"html", "fence"}
 ConcatLaw ==
     doc # << >> =>
         \A b \in Alphabet :
